@@ -1,8 +1,9 @@
 /-
   C11 — periodic local grids contain every periodic image inside the sphere exactly once.
 
-  Model: `Model/Periodic.lean` (hand-written, tied to the code by differential runs,
-  harness/props/c11.py).  Definitions `Dual`, `PInv`, `IsImage` and helper lemmas:
+  Model: `Model/Periodic.lean` (hand-written; `Props/C11/Gen.lean` proves it equal to the
+  definitions generated from periodicgrid.py, which differential runs compare with the
+  implementation, harness/props/c11.py).  Definitions `Dual`, `PInv`, `IsImage` and helper lemmas:
   `Lemmas/PeriodicGrid.lean`, `Lemmas/Periodic.lean`.
 
   All statements are over ℝ^d (coordinate lists of length `d`), for any number `K ≤ d` of lattice
